@@ -23,6 +23,8 @@ TraceNext ==
      \* roles "install" / "insthdr": the name as an argument of the install and uninstall commands
      /\ Need(scope => e.installed, "InstallPlacesTheFileUnderDestdir", e.role)
      /\ Need(scope => e.uninstalled, "UninstallRemovesIt", e.role)
+     \* role "header": the name as a depfile entry; once no longer included, the header is deleted
+     /\ Need(scope => e.hdrgone, "DeletedHeaderDoesNotBlockTheBuild", e.role)
   /\ l' = l + 1 /\ UNCHANGED t
 TraceSpec == TraceInit /\ [][TraceNext]_tvars
 =============================================================================
